@@ -524,6 +524,17 @@ func (r *foRun) construct() {
 				_, _ = m.Walk(func(en cache.EntryOf[Tok]) error { fn(en.Key(), en.Value(), en.ExpireAt()); return nil })
 			},
 		}
+	case "shardedOfAny":
+		// ShardedMapOf[interface{}] satisfies the non-generic ReadWriter: Failover over the generic backend.
+		m := cache.NewShardedMapOf[interface{}](bcfg.Use)
+		r.be = foBackend{
+			plain: m, stop: m.VerifStop, len: m.Len, expAl: m.ExpireAll,
+			read:  func(ctx context.Context, k []byte) (interface{}, error) { return m.Read(ctx, k) },
+			write: func(ctx context.Context, k []byte, v Tok) error { return m.Write(ctx, k, v) },
+			walk: func(fn func(key []byte, v interface{}, exp time.Time)) {
+				_, _ = m.Walk(func(en cache.EntryOf[interface{}]) error { fn(en.Key(), en.Value(), en.ExpireAt()); return nil })
+			},
+		}
 	default:
 		m := cache.NewShardedMap(bcfg.Use)
 		r.be = foBackend{
